@@ -509,6 +509,29 @@ let run_ksim (dump : Stdlib.String.t list) (hist : Stdlib.String.t) (out : Buffe
               pending := []
             end
           done
+        | 'm' ->
+          (* one iteration of the processing loop that covers n milliseconds (the loop was late): the idle bookkeeping is told n,
+             then n single milliseconds run (no dynamic-macro replay in these cases: its catch-up depends on n) *)
+          let n = int_of_string rest in
+          let blocked = (match !loop_mode with
+            | None -> false
+            | Some _ when !iter_open -> iter_open := false; false
+            | Some honour ->
+              let (k', cb) = k_can_block cfg !k (n_of_int n) in
+              k := k'; (cb && zidle ()) && honour) in
+          if blocked then tick := !tick + n else begin
+            for _ = 1 to n do
+              let (k', evs) = unwrap (k_tick cfg !k) in
+              k := k';
+              pending := !pending @ List.map fmt_ev (zfilter evs);
+              (match zc with Some _ -> z := z_tick ((!k).k_caps_word <> None) !z | None -> ())
+            done;
+            tick := !tick + n;
+            if !pending <> [] then begin
+              Buffer.add_string out (Printf.sprintf "@%d %s\n" !tick (String.concat " " !pending));
+              pending := []
+            end
+          end
         | _ -> failwith ("bad history token " ^ tok)
       end) (String.split_on_char ' ' hist);
     if !pending <> [] then Buffer.add_string out (Printf.sprintf "@%d+ %s\n" !tick (String.concat " " !pending));
